@@ -32,6 +32,27 @@ CLAIMED = {
         'spelling function (harness/parsecheck.py spell) and the abstraction '
         'of code tokens to spec tokens (c01_random.abstract_tok).',
         'DESIGN.md 4/C01'),
+    'C18': (
+        'TLC model checking of ShuntingYard.tla/Grammar.tla (every token '
+        'sequence ends acc or rej; acc only if the grammar accepts) and '
+        'NumLit.tla (literal automaton = definition) + replay of rejected '
+        'prefixes and all enumerated literals + TLC trace validation '
+        '(ParseTrace.tla) of fuzzed inputs',
+        'Every rejected token sequence of the exhaustive prefix tree must '
+        'raise the formula error and nothing else on the real parser; every '
+        'numeric literal TLC enumerates (up to 6 characters, leading zeros, '
+        'decimals, signed exponents) must be accepted with the value the '
+        'spec assigns, in four contexts. Seeded token soups, random printable '
+        'strings and single-edit mutations of valid formulas are parsed with '
+        'a per-call watchdog: any other exception or a time-out is an escape; '
+        'each recorded parse is validated by ParseTrace.tla, so an accepted '
+        'text must be accepted by the grammar on the logged tokens with the '
+        'same tree (no silent misreading).',
+        'Trusted: TLC; Grammar.tla; the abstraction of code tokens to spec '
+        'tokens. The lexer itself (characters -> tokens) is only bound '
+        'through spellings generated from known token sequences and through '
+        'the literal automaton.',
+        'DESIGN.md 4/C18'),
     'C02': (
         'TLC model checking of XlOps.tla (operator table + order theorems) '
         '+ exhaustive obligation replay into the code + TLC trace validation '
